@@ -131,7 +131,8 @@ func (w *Writer) WriteVector4(accessorComponentType AccessorComponentType, data 
 
 	if accessorComponentType == AccessorComponentType_FLOAT {
 		for i := 0; i < data.Len(); i++ {
-			v := data.At(i)
+			// Bounds must describe the float32 values that were stored
+			v := data.At(i).ToFloat32().ToFloat64()
 			min = vector4.Min(min, v)
 			max = vector4.Max(max, v)
 			w.WriteVector4AsFloat32(v)
@@ -185,6 +186,9 @@ func (w *Writer) WriteVector3(accessorComponentType AccessorComponentType, data 
 			if v.ContainsNaN() {
 				continue
 			}
+
+			// Bounds must describe the float32 values that were stored
+			v = v.ToFloat32().ToFloat64()
 			min = vector3.Min(min, v)
 			max = vector3.Max(max, v)
 		}
@@ -242,6 +246,9 @@ func (w *Writer) WriteVector2(accessorComponentType AccessorComponentType, data 
 			if v.ContainsNaN() {
 				continue
 			}
+
+			// Bounds must describe the float32 values that were stored
+			v = v.ToFloat32().ToFloat64()
 			min = vector2.Min(min, v)
 			max = vector2.Max(max, v)
 		}
